@@ -78,11 +78,12 @@ MANUAL = [
     ("C07", "pattern_node_more_outputs_than_host", r"raise:split_first:.*", "a pattern node declared with two outputs matched against a host Split with one output: the matcher accepts it (see the C06 finding) and applying the replacement raises ValueError"),
     ("C07", "multi_output_pattern_insertion_point", r"(invalid|violation_not_executable):neg_and_abs.*",
      "patterns with several output nodes: the replacement nodes are inserted at the position of one output node (documented TODO); a consumer placed earlier uses a value before its definition"),
+    ("C10", "fresh_names_not_unique_across_scopes", r"(invalid|not_executable|values)(:.*)?", "an adapter that fires inside an If/Loop body names its new values val_0, val_1, ... like the adapter that fires in the main graph: after onnx_ir's NameFixPass an inner node refers to the outer value of the same name (e.g. DFT's new axis input bound to a float tensor)"),
     ("C11", "advanced_indices_separated_by_slice", r"(eager|graph)_different_tensor:.*", "A[-1, :, v] with v a 1-D tensor: NumPy moves the dimension of non-adjacent advanced indices to the front of the result, the converter and eager mode index axis by axis (same elements, transposed layout)"),
     ("C11", "negstep_start_below_minus_d", r"eager_different_tensor:.*",
      "A[s::-k] with s < -len: numpy yields an empty result, ONNX Slice clamps the start to 0 for negative steps and returns element 0 (eager and graph on onnxruntime; "
      "onnx.reference follows numpy)"),
-    ("C13", "names_collide_after_cleanup", r"(roundtrip:different_computation:.*|text_not_python:(any|skip_initializers):SyntaxError|roundtrip:not_executable:.*)",
+    ("C13", "names_collide_after_cleanup", r"(roundtrip:different_computation:.*|text_not_python:(any|skip_initializers):SyntaxError|roundtrip:not_executable:.*|text_not_executable:ValueError:Unbound name)",
      "value names that become the same identifier after clean-up ('a.b' and 'a_b'): duplicate argument or one variable shadowing the other"),
     ("C13", "skip_initializers_random_weights_unsupported_dtype", r"export_raises:NotImplementedError@onnx_export.py:generate_rand", "skip_initializers=True with a non-float32 initializer: NotImplementedError from the random-weights generator"),
     ("C13", "inline_const_drops_still_referenced_definition", r"text_not_executable:ValueError:Unbound name", "inline_const=True drops Constant/initializer definitions that are still referenced by name (Loop trip count, initializers whose names need clean-up)"),
